@@ -2,6 +2,7 @@ package props
 
 import (
 	"go/ast"
+	"go/token"
 	"go/types"
 	"strings"
 
@@ -244,4 +245,93 @@ func commentLinesKeepEmpty(r *core.Run) {
 		})
 	})
 	r.Floor("R-CONST/commentlines", 1, "commentLines")
+}
+
+// referenceNamesResolve (R-FLOW/refscope): a type reference in .proto text is
+// resolved from the innermost scope outwards, by its first component. A name
+// shortened by cutting off the scopes shared with the referring element is
+// right only when nothing nearer answers to its first component: a nested
+// message or enum of the same name, or — for a dotted name — a package
+// component (`google.protobuf.Timestamp` inside package `acme.google.v1`).
+// The printer therefore checks each shortened name against that resolution
+// and falls back to the absolute form `.pkg.Type`.
+func referenceNamesResolve(r *core.Run) {
+	r.Rule("R-FLOW/refscope", "the protoprint function that names a referenced element relative to the referring one (two protoreflect.Descriptor parameters, results string and error) returns a shortened name only after comparing what it resolves to with the referenced element's FullName(), and otherwise returns \".\" + the full name; or it returns absolute names only")
+	pk := r.P.Pkg(printRel)
+	if pk == nil {
+		r.Fatal("anchor: package %s not found", printRel)
+		return
+	}
+	info := pk.TypesInfo
+	n := 0
+	core.AllFuncDecls(pk, func(fd *ast.FuncDecl) {
+		if fd.Body == nil || fd.Type.Params == nil || fd.Type.Results == nil || len(fd.Type.Results.List) != 2 {
+			return
+		}
+		var ps []types.Object
+		for _, p := range fd.Type.Params.List {
+			if strings.HasSuffix(core.TypeStr(info.TypeOf(p.Type)), "protoreflect.Descriptor") {
+				for _, nm := range p.Names {
+					ps = append(ps, info.ObjectOf(nm))
+				}
+			}
+		}
+		if len(ps) != 2 || core.TypeStr(info.TypeOf(fd.Type.Results.List[0].Type)) != "string" {
+			return
+		}
+		n++
+		o := r.Add("R-FLOW/refscope", printRel+"."+core.FuncName(fd)+" | shortened names are verified", fd.Pos(), "name of a referenced type relative to the referring element")
+		isFullNameOf := func(e ast.Expr) bool {
+			hit := false
+			ast.Inspect(e, func(m ast.Node) bool {
+				if c, ok := m.(*ast.CallExpr); ok {
+					if sel, ok := c.Fun.(*ast.SelectorExpr); ok && sel.Sel.Name == "FullName" {
+						if id, ok := core.Unparen(sel.X).(*ast.Ident); ok && (info.ObjectOf(id) == ps[0] || info.ObjectOf(id) == ps[1]) {
+							hit = true
+						}
+					}
+				}
+				return true
+			})
+			return hit
+		}
+		compares, absolute, other := false, 0, 0
+		ast.Inspect(fd.Body, func(m ast.Node) bool {
+			switch x := m.(type) {
+			case *ast.BinaryExpr:
+				if (x.Op == token.NEQ || x.Op == token.EQL) && (isFullNameOf(x.X) != isFullNameOf(x.Y)) {
+					// one side is the referenced element's full name, the other a computed resolution
+					if _, isCall := core.Unparen(x.X).(*ast.CallExpr); isCall {
+						compares = true
+					}
+					if _, isCall := core.Unparen(x.Y).(*ast.CallExpr); isCall {
+						compares = true
+					}
+				}
+			case *ast.ReturnStmt:
+				if len(x.Results) != 2 || !core.IsNilIdent(info, x.Results[1]) {
+					return true
+				}
+				if b, ok := core.Unparen(x.Results[0]).(*ast.BinaryExpr); ok && b.Op == token.ADD {
+					if s, ok := core.ConstString(info, b.X); ok && s == "." && isFullNameOf(b.Y) {
+						absolute++
+						return true
+					}
+				}
+				other++
+			}
+			return true
+		})
+		switch {
+		case other == 0 && absolute > 0:
+			o.Auto("absolute names only")
+		case compares && absolute > 0:
+			o.Auto("a shortened name is returned only when it resolves to the referenced element, the absolute form otherwise")
+		default:
+			o.Fail("a shortened name is returned without checking what it resolves to from the referring element's scope: a nested type or a package component of the same first name captures it, and the printed file re-parses with another type for the field (or does not link)")
+		}
+	})
+	if n == 0 {
+		r.Fatal("R-FLOW/refscope: the reference-naming function of %s was not found", printRel)
+	}
 }
